@@ -8,6 +8,7 @@ import (
 	"strings"
 	"time"
 
+	"github.com/mimecast/dtail/internal/config"
 	"github.com/mimecast/dtail/internal/omode"
 
 	"github.com/mimecast/dtail/internal/lcontext"
@@ -164,6 +165,30 @@ func c12Mapr(c *Ctx) {
 		{"select k,count(k),sum(v) from t group by k", "a,2,3.000000\nb,1,4.000000\n"}, // table names are case-insensitive (upper-cased)
 		{"select count($line) group by $hostname", "8\n"},
 		{"select k,sum(v) where v > 1 logformat generickv", "a,51109.000000\nb,4.000000\n"}, // generickv reads the k=v pairs of every line
+	}
+	// the output-mode options of a dmap session (its read command follows an option-less 'map' command):
+	// in serverless/plain mode no server notice may reach the user's terminal, e.g. the long-line warning
+	long := WriteScratch("c12/maprlong.log", mk("INFO", "T", "k=a|v=1")+"\n"+mk("INFO", "T", "k=b|v=2|pad="+strings.Repeat("p", 200))+"\n")
+	for _, plain := range []bool{false, true} {
+		outfile := fmt.Sprintf("%s/c12-mapr-modes-%d-%v.csv", Scratch(), c.Shard, plain)
+		var got ClientResult
+		res := vrt.Run(vrt.Config{MaxSteps: 5000000, Horizon: 10 * time.Minute}, func() {
+			os.Remove(outfile)
+			args := DefaultArgs()
+			args.Mode = omode.MapClient
+			args.NoColor = true
+			args.Plain = plain
+			args.Quiet = true
+			args.LogLevel = "error"
+			args.What = long
+			args.QueryStr = "select k,count(k) from T group by k outfile " + outfile
+			got = RunClientBody(ClientOpts{Kind: "map", Args: args, Mutate: func() { config.Server.MaxLineLength = 128 }})
+		})
+		c.Count(fmt.Sprintf("mapr-modes|%v", plain))
+		if res.Fail != nil || got.Err != "" || got.Status != 0 || strings.Contains(got.Stdout, "SERVER|") {
+			c.Violation("mapreduce-session-modes-differ-from-request", fmt.Sprintf("serverless dmap (plain=%v) over a file with an over-long line: the client asked for serverless/quiet mode, yet a server notice reached its output: %q (status %d, %v %v)",
+				plain, got.Stdout, got.Status, got.Err, res.Fail), map[string]bool{"plain": plain})
+		}
 	}
 	for i, m := range cases {
 		outfile := fmt.Sprintf("%s/c12-mapr-%d-%d.csv", Scratch(), c.Shard, i)
